@@ -218,12 +218,26 @@ class GridCropPad:
                 for i, form in enumerate(margin_forms(D)):
                     for ac in ((True, False) if i == 0 else (True,)):
                         yield {"D": D, "fn": fn, "form": form[0], "align_corners": ac}
+        # chains: crop / pad of a pyramid level of an odd-sized grid (stored size fractional, 9 x 7 -> 4.5 x 3.5 = 5 x 4 samples)
+        for fn in ("crop", "pad"):
+            for form in margin_forms(2)[:2]:
+                yield {"D": 2, "fn": fn, "form": form[0], "align_corners": True, "base": "downsampled"}
 
     def run(self, case, K):
         D = case["D"]
         form = [f for f in margin_forms(D) if f[0] == case["form"]][0]
         _, args, kwargs, lo, hi = form
         sgn = 1 if case["fn"] == "crop" else -1
+        if case.get("base") == "downsampled":
+            g0, _ = make_grid(K, "g", D, sizes=(9, 7), align_corners=True)
+            g = g0.downsample()
+            gs = spec_of(K, g, N=[E.const(5), E.const(4)])
+            res = K.call(getattr(g, case["fn"]), *args, **kwargs)
+            if not K.ensure_returns(res, text=Q3S):
+                return
+            K.ensure_eq("size", res.size_tensor(), [E.sub(gs.N[i], sgn * (lo[i] + hi[i])) for i in range(D)], text="C03: crop/pad remove/add the given number of samples at each border")
+            same_frame(K, res, gs, [E.const(sgn * v) for v in lo], tag="-chain")
+            return
         g, gs = make_grid(K, "g", D, align_corners=case["align_corners"], nmin=1)
         # valid request: at least one sample remains on every axis
         newN = [E.sub(gs.N[i], sgn * (lo[i] + hi[i])) for i in range(D)]
